@@ -30,7 +30,7 @@ func init() {
 		Assumptions: []string{"ref.Accept is the documented acceptance rule (DESIGN Appendix A rule 12 and C08's statement); indexes above 65536 are outside the alphabet (fieldsByIndex is a dense slice)"},
 		Work:        c08Work,
 		Post: func(a *mc.Agg) []string {
-			return needDims(a, "verdict:accept", "verdict:reject", "verdict:either", "set:kinds", "set:options", "set:tags", "set:dups", "set:unexported", "subtype-probe")
+			return needDims(a, "verdict:accept", "verdict:reject", "verdict:either", "set:kinds", "set:options", "set:tags", "set:dups", "set:unexported", "subtype-probe", "reject-after-subtype")
 		},
 	})
 }
@@ -276,6 +276,42 @@ func c08One(c *mc.Ctx, cfg ref.Cfg, d c08Def) {
 			c.Dim("subtype-probe")
 			if msg := c08Battery(p, cfg, s); msg != "" {
 				c.Violation(pre+"subtype-broken-afterwards:"+mc.PanicClass(msg), "sub-type "+s.String()+": "+msg)
+			}
+		}
+		// ... and the other order: a definition the model rejects must be rejected whatever the instance
+		// built before - in particular after each of its own valid sub-types (which are then in the registry)
+		if verdict == ref.MustReject {
+			for _, s := range subs {
+				if s.K == ref.KRaw || s == t {
+					continue
+				}
+				if v, _ := ref.Accept(cfg, s, ""); v != ref.MustAccept {
+					continue
+				}
+				c.Dim("reject-after-subtype")
+				c.Ops(2)
+				q := NewPlenc(cfg)
+				if _, err := q.CodecForType(s.Reflect()); err != nil {
+					continue
+				}
+				if codec, err := q.CodecForType(rt); err == nil {
+					c.Violation(pre+"accepted-after-subtype-was-built:"+mc.PanicClass(why), fmt.Sprintf("model: reject (%s); after CodecForType(%s) on the same instance plenc returned codec %T", why, s, codec))
+					break
+				}
+			}
+			// the struct-field form of the same thing: a valid field of the sub-type declared before the bad one
+			for _, s := range subs {
+				if s.K == ref.KRaw || s == t || t.K == ref.KStruct {
+					continue
+				}
+				if v, _ := ref.Accept(cfg, s, ""); v != ref.MustAccept {
+					continue
+				}
+				both := ref.Struct(ref.F{Name: "Good", Index: 1, T: s}, ref.F{Name: "Bad", Index: 2, T: t})
+				if _, err := NewPlenc(cfg).CodecForType(both.Reflect()); err == nil {
+					c.Violation(pre+"accepted-after-subtype-field:"+mc.PanicClass(why), fmt.Sprintf("model: reject (%s); accepted as the second field of %s", why, both))
+					break
+				}
 			}
 		}
 		if c.WantSample() {
